@@ -8,7 +8,7 @@ documented family of keys (`utm_…`, `fbclid`, …) is stripped, the theorems o
 need: (1) a match of one alternative is a match of the alternation and conversely (`alts`,
 `match_of_alt`, `alt_of_match`); (2) an alternative of the shape *literal prefix* + `.+`
 (`isPrefixFamily`) matches every key `prefix ++ rest`, `rest` non-empty without newline
-(`match_prefixFamily`); (3) the frame `^ … $` (`Framed`, `accepts_of_alt`, `alt_of_accepts`).
+(`match_prefixFamily`); (3) the frame `^ … $` (`FramedAlt`, `accepts_of_alt`, `alt_of_accepts`).
 The shape tests are decidable on the generated terms: they are the table obligations.
 -/
 namespace Ural.Py.Re
@@ -151,12 +151,12 @@ theorem match_prefixFamily {n : Nat} {pre : List Char} {a : Re} (h : isPrefixFam
 /-! ## the frame `^ … $` -/
 
 /-- `r` is `^ body $` once sequences are flattened -/
-def Framed (r body : Re) : Prop := spine r = [.bos, body, .eos]
+def FramedAlt (r body : Re) : Prop := spine r = [.bos, body, .eos]
 
-instance (r body : Re) : Decidable (Framed r body) := by unfold Framed; infer_instance
+instance (r body : Re) : Decidable (FramedAlt r body) := by unfold FramedAlt; infer_instance
 
 /-- a key that an alternative of the body matches entirely is accepted by the framed pattern -/
-theorem accepts_of_alt {r body a : Re} (hf : Framed r body) (ha : a ∈ alts body) {key : List Char}
+theorem accepts_of_alt {r body a : Re} (hf : FramedAlt r body) (ha : a ∈ alts body) {key : List Char}
     (h : Match key.length a key []) : Accepts r key := by
   refine ⟨[], ?_⟩
   rw [match_iff_spine, hf]
@@ -164,7 +164,7 @@ theorem accepts_of_alt {r body a : Re} (hf : Framed r body) (ha : a ∈ alts bod
     (MatchL.cons (match_of_alt ha h) (MatchL.cons Match.eosEnd (MatchL.nil _)))
 
 /-- conversely an accepted key is matched by one alternative of the body, up to a final newline -/
-theorem alt_of_accepts {r body : Re} (hf : Framed r body) {key : List Char} (h : Accepts r key) :
+theorem alt_of_accepts {r body : Re} (hf : FramedAlt r body) {key : List Char} (h : Accepts r key) :
     ∃ a ∈ alts body, ∃ t, Match key.length a key t ∧ (t = [] ∨ t = ['\n']) := by
   obtain ⟨u, hm⟩ := h
   rw [match_iff_spine, hf] at hm
@@ -183,7 +183,7 @@ theorem alt_of_accepts {r body : Re} (hf : Framed r body) {key : List Char} (h :
         | eosNl => right; rfl
 
 /-- a framed pattern accepts whatever a framed pattern with fewer alternatives accepts -/
-theorem accepts_of_altsSubset {r r' body body' : Re} (hf : Framed r body) (hf' : Framed r' body')
+theorem accepts_of_altsSubset {r r' body body' : Re} (hf : FramedAlt r body) (hf' : FramedAlt r' body')
     (hs : altsSubset body body' = true) {key : List Char} (h : Accepts r key) : Accepts r' key := by
   obtain ⟨u, hm⟩ := h
   rw [match_iff_spine, hf] at hm
